@@ -13,7 +13,7 @@ def run(ctx):
                 "MODEL system is evaluated inside Coq at the real solver's answer; non-trivial = some axis N>=2; impl_probe: the property's observables on the real code")
     ctx.prove("C03")
     from suites import symsuite
-    run_suites(ctx, ["symbolic"], runner=symsuite.run_suite, relevant=symsuite.relevant_for(['bcM', 'bcR', 'ghosts', 'solveL', 'solveR', 'explicit']))
+    run_suites(ctx, ["symbolic"], runner=symsuite.run_suite, relevant=symsuite.relevant_for(['bcM', 'bcR', 'ghosts', 'solveL', 'solveR', 'explicit', 'profile']))
     run_suites(ctx, ["bc_ghost", "bc_rows"], runner=bcsuite.run_suite)
     run_suites(ctx, ["solve", "explicit"], runner=solvesuite.run_suite)
     try:
